@@ -532,6 +532,16 @@ class sptenmat:
         if csubs.shape == ():
             csubs = np.array([csubs])
 
+        if (
+            np.any(rsubs < 0)
+            or np.any(rsubs >= self.shape[0])
+            or np.any(csubs < 0)
+            or np.any(csubs >= self.shape[1])
+        ):
+            raise IndexError(
+                f"Subscripts out of range for a sptenmat with matrix shape {self.shape}"
+            )
+
         if isinstance(value, (int, float, np.floating)):
             value = value * np.ones((len(csubs) * len(rsubs), 1))
         value = np.asarray(value)
